@@ -34,6 +34,10 @@ MUTANTS = [
     F("C06", "process filter as a list comprehension over the trace stream", P,
       "            trace_generator = filter(self._filter_process_callback, trace_generator)",
       "            trace_generator = [t for t in trace_generator if self._filter_process_callback(t)]", "R3"),
+    F("C06", "record decoder made of slices: never fails on a short buffer", "kevent.py",
+      "    timestamp, args_buf, tid, debugid, cpuid, unused = struct.unpack(KD_BUF_FORMAT, kd_buf)\n",
+      "    timestamp = int.from_bytes(kd_buf[0:8], 'little')\n    args_buf = bytes(kd_buf[8:40])\n"
+      "    tid = int.from_bytes(kd_buf[40:48], 'little')\n    debugid = int.from_bytes(kd_buf[48:52], 'little')\n", "R2"),
     N("C06", "len(buf) == 0 form", K, "            if not buf:\n                break", "            if buf == b'':\n                break"),
     N("C06", "seek_until returns False at EOF handled by raise in a helper form", K,
       "        if not byte:\n            raise EOFError(f'{data!r} was not found before the end of the stream')",
